@@ -1,7 +1,11 @@
 import EV.Model.SyncLoop
+import EV.Model.SyncLoopT
 import EV.Drv.Index
 
-/-! Line-protocol driver for suite `sync` (the forward processing loop, `EV.SyncLoop`). -/
+/-! Line-protocol driver for suite `sync`: the forward processing loop `EV.SyncLoop` (`B`, `C`) and
+the loop with its touched set and reorganisations `EV.SyncLoopT` (`BT`, `S`, `E`, `CT`, `R`; every answer
+ends with `| ` and the touched set — at a told point: the set handed over — as sorted distinct
+numbers).  Both models share the loop state. -/
 open EV EV.Wire EV.Index EV.SyncLoop
 
 namespace Drv.SyncLoopD
@@ -13,6 +17,25 @@ structure DSt where
 deriving Inhabited
 
 def heights (s : Sys) : String := s!"{s.m.st.height} {s.m.dbst.height} {s.m.fsHeight}"
+
+/-- a touched set, canonically: distinct, ascending -/
+def showSet (l : List HashX) : String :=
+  " |" ++ String.join ((l.eraseDups.mergeSort (fun a b => decide (a ≤ b))).map (fun x => s!" {x}"))
+
+def parseArg (arg : String) : Option (Option Bool) :=
+  if arg = "-" then some none else if arg = "0" then some (some false)
+  else if arg = "1" then some (some true) else none
+
+/-- the blocks with the given ids, `none` if one is unknown -/
+def lookupBlocks (blocks : List (Nat × Block)) : List String → Option (List Block)
+  | [] => some []
+  | w :: r =>
+    match w.toNat? with
+    | none => none
+    | some i =>
+      match alookup i blocks, lookupBlocks blocks r with
+      | some b, some bs => some (b :: bs)
+      | _, _ => none
 
 def stepLine (d : DSt) (line : String) : DSt × String :=
   match words line with
@@ -37,6 +60,39 @@ def stepLine (d : DSt) (line : String) : DSt × String :=
         | .ok (l', _) => ({ d with l := l' }, "ok " ++ heights l'.s)
         | .error e => (d, Drv.IndexD.showErr e)
     | _, _, _ => (d, "bad-op")
+  | ["BT", i, dh, arg] =>
+    match i.toNat?, dh.toInt?, parseArg arg with
+    | some i, some dh, some a =>
+      match alookup i d.blocks with
+      | none => (d, "bad-op")
+      | some b =>
+        match SyncLoopT.step d.cfg d.l (.block b dh a) with
+        | .ok (l', _) => ({ d with l := l' }, "ok " ++ heights l'.s ++ showSet l'.s.m.touched)
+        | .error e => (d, Drv.IndexD.showErr e)
+    | _, _, _ => (d, "bad-op")
+  | ["S", arg] =>
+    match parseArg arg with
+    | some a =>
+      match SyncLoopT.step d.cfg d.l (.stale a) with
+      | .ok (l', _) => ({ d with l := l' }, "ok " ++ heights l'.s ++ showSet l'.s.m.touched)
+      | .error e => (d, Drv.IndexD.showErr e)
+    | none => (d, "bad-op")
+  | ["E"] =>
+    match SyncLoopT.step d.cfg d.l .batchEnd with
+    | .ok (l', _) => ({ d with l := l' }, "ok " ++ heights l'.s ++ showSet l'.s.m.touched)
+    | .error e => (d, Drv.IndexD.showErr e)
+  | ["CT"] =>
+    match SyncLoopT.step d.cfg d.l .caughtUp with
+    | .ok (l', some (.told h t _)) => ({ d with l := l' }, s!"told {h} " ++ heights l'.s ++ showSet t)
+    | .ok (l', _) => ({ d with l := l' }, "first " ++ heights l'.s ++ showSet l'.s.m.touched)
+    | .error e => (d, Drv.IndexD.showErr e)
+  | "R" :: ids =>
+    match lookupBlocks d.blocks ids with
+    | none => (d, "bad-op")
+    | some bs =>
+      match SyncLoopT.step d.cfg d.l (.reorg bs) with
+      | .ok (l', _) => ({ d with l := l' }, "ok " ++ heights l'.s ++ showSet l'.s.m.touched)
+      | .error e => (d, Drv.IndexD.showErr e)
   | ["C"] =>
     match step d.cfg d.l .caughtUp with
     | .ok (l', some h) => ({ d with l := l' }, s!"told {h} " ++ heights l'.s)
